@@ -109,10 +109,14 @@ def getcallarg(function, args, kwargs):
     gets the first arg of a function
     """
     if len(args):
-        arg = args[0]
-    else:
-        arg = kwargs[getargs(function)[0]]
-    return arg
+        return args[0]
+    names = getargs(function)
+    if len(names) == 0: ## function has no first argument
+        return None
+    elif names[0] in kwargs:
+        return kwargs[names[0]]
+    else: ## first argument not provided, the function will see its default
+        return argspec_defaults(function).get(names[0])
 
 
 def getcallargs(function, *args, **kwargs):
